@@ -59,7 +59,11 @@ CLAIMED = {
         'text': ('Lean 4 on rebuild_h_atoms\' model: for every graph, every non-hydrogen atom whose bonds fit a listed '
                  'valence ends with bond orders summing exactly to the smallest fitting valence (valence lists = pysmiles\' '
                  'table regenerated each run, proved ascending by kernel evaluation); truncation for half-integral sums; '
-                 'nothing added beyond the largest valence. Tied to the code by exact differential execution of resolver '
+                 'nothing added beyond the largest valence. For EVERY all-atom step of the resolver model (C09_step_complete: any '
+                 'base graph, templates with distinct keys and closed bonds, any recorded aromaticity answer) the valence '
+                 'reached by completion is the valence the atom has in the returned fine graph: the inheritance loop, the '
+                 'stereo annotation and the naming change no bond, and the renumbering is injective on keys so that every '
+                 'atom keeps its bond-order sum (sortNodes_bonds2). Tied to the code by exact differential execution of resolver '
                  'and sampler outputs incl. hydrogens and inherited attributes.'),
         'note': RESOLVE_NOTE + 'Bond orders inside aromatic rings are what pysmiles returns (A2).',
         'design': '§7 C09',
